@@ -120,8 +120,41 @@ func RunPipe(srv *vgirpc.Server, input []byte) (res PipeResult) {
 
 // RunPipeCtx is RunPipe under a caller-supplied base context (nil = Serve's own).
 func RunPipeCtx(ctx context.Context, srv *vgirpc.Server, input []byte) (res PipeResult) {
+	return runPipe(ctx, srv, input, -1)
+}
+
+// RunPipeFail is RunPipe with a peer that goes away: once failAfter bytes of
+// output have been accepted every further write fails with io.ErrClosedPipe.
+// The result holds what was accepted.
+func RunPipeFail(srv *vgirpc.Server, input []byte, failAfter int) PipeResult {
+	return runPipe(nil, srv, input, failAfter)
+}
+
+// failingWriter accepts limit bytes (limit < 0: everything), then fails.
+type failingWriter struct {
+	buf   bytes.Buffer
+	limit int
+}
+
+func (w *failingWriter) Write(p []byte) (int, error) {
+	if w.limit < 0 {
+		return w.buf.Write(p)
+	}
+	room := w.limit - w.buf.Len()
+	if room >= len(p) {
+		return w.buf.Write(p)
+	}
+	if room > 0 {
+		w.buf.Write(p[:room])
+	} else {
+		room = 0
+	}
+	return room, io.ErrClosedPipe
+}
+
+func runPipe(ctx context.Context, srv *vgirpc.Server, input []byte, failAfter int) (res PipeResult) {
 	rd := &trackReader{r: bytes.NewReader(input)}
-	var out bytes.Buffer
+	out := failingWriter{limit: failAfter}
 	func() {
 		defer func() {
 			if rv := recover(); rv != nil {
@@ -135,7 +168,7 @@ func RunPipeCtx(ctx context.Context, srv *vgirpc.Server, input []byte) (res Pipe
 		}
 	}()
 	res.Unread = rd.r.Len()
-	res.Out = out.Bytes()
+	res.Out = out.buf.Bytes()
 	res.Streams, res.DecodeErr = SplitStreams(res.Out)
 	return res
 }
